@@ -256,6 +256,10 @@ func (am *Machine) LoadKeysFromDB() error {
 
 // SaveKeysToDB save DKG keys to LevelDB
 func (am *Machine) SaveKeysToDB() error {
+	// scrypt accepts an empty password: without one the private key would be stored readable by anybody
+	if len(am.encryptionKey) == 0 {
+		return errors.New("failed to save keys: encryption password is not set")
+	}
 	pubKeyBz, err := am.pubKey.MarshalBinary()
 	if err != nil {
 		return fmt.Errorf("failed to marshal pub key: %w", err)
